@@ -204,6 +204,21 @@ class Executor:
             r = w.op_cache_truncate(op.get("k"), op.get("frac"))
             self._cache_faulted(op, r)
             return r
+        if k == "cache_flip":
+            d0 = w.cache_json()
+            r = w.op_cache_flip(op["k"], op.get("xor", 1))
+            self._cache_faulted(op, r)
+            if "noop" not in r and self.pending_fault is not None:
+                d1 = w.cache_json()
+                # a flip that leaves a well-formed document of the same shape (a digit, a letter
+                # inside a value) merely makes the cache claim something else: nothing on disk can
+                # reveal it, so only "never breaks" is required of the next scan, not equality
+                if d0 is not None and d1 is not None and _shape(d0) == _shape(d1):
+                    self.pending_fault["relaxed"] = True
+                    self.probe("c10_flip_same_shape")
+                else:
+                    self.probe("c10_flip_detectable")
+            return r
         if k == "cache_replace":
             r = w.op_cache_replace(op["kind"])
             self._cache_faulted(op, r)
@@ -463,6 +478,21 @@ class Executor:
 
     def at_end(self):
         pass
+
+
+def _shape(d):
+    """Structure of a JSON document: kinds and object keys, not scalar values."""
+    if isinstance(d, dict):
+        return {k: _shape(v) for k, v in d.items()}
+    if isinstance(d, list):
+        return [_shape(v) for v in d]
+    if isinstance(d, bool):
+        return "bool"
+    if isinstance(d, (int, float)):
+        return "number"
+    if isinstance(d, str):
+        return "string"
+    return "null"
 
 
 def _strip_markers(d):
